@@ -23,7 +23,8 @@ Inductive rid_rule :=
 | RidUnknown.
 Record cfg := {
   c_rid : rid_rule;
-  c_tf_keeps_bank_md : bool   (* unsafeGenesisInsertDenom keeps bank metadata that already exists *)
+  c_tf_keeps_bank_md : bool;  (* unsafeGenesisInsertDenom keeps bank metadata that already exists *)
+  c_pair_json_id : bool       (* asset.Pair (Un)MarshalJSON copy the string unchanged *)
 }.
 
 (** pure functions of the Go code over opaque payloads *)
@@ -33,7 +34,9 @@ Record funs := {
   f_ftid : key -> key -> key;        (* evm.NewFunTokenID(erc20, bankDenom) *)
   f_tfparse : key -> key * id;       (* DenomStr.MustToStruct: denom -> (creator, subdenom) *)
   f_tfdefmd : key -> id;             (* TFDenom.DefaultBankMetadata *)
-  f_dgsan : id -> id                 (* devgas ModuleParams.Sanitize *)
+  f_dgsan : id -> id;                (* devgas ModuleParams.Sanitize *)
+  f_pairjson : key -> key            (* asset.Pair.UnmarshalJSON (MarshalJSON p): what a pair string becomes when the
+                                        genesis JSON is decoded — the only custom JSON codec among the string keys *)
 }.
 
 (* ------------------------------------------------------------------ sudo *)
@@ -121,6 +124,13 @@ Definition rewards_id_after (c : cfg) (rs : list reward) : option Z :=
       | RidUnknown => None
       end
   end.
+
+(** the genesis section as InitGenesis receives it: decoded from the exported JSON *)
+Definition json_oracle_gen (F : funs) (g : oracle_gen) : oracle_gen :=
+  {| og_params := og_params g; og_whitelist := map (f_pairjson F) (og_whitelist g);
+     og_rates := map (fun kv => (f_pairjson F (fst kv), snd kv)) (og_rates g);
+     og_feeders := og_feeders g; og_miss := og_miss g; og_prevotes := og_prevotes g; og_votes := og_votes g;
+     og_pairs := map (f_pairjson F) (og_pairs g); og_rewards := og_rewards g |}.
 
 Definition init_oracle (c : cfg) (h t : Z) (g : oracle_gen) : oracle_st :=
   (* SetPrice: ExchangeRates[pair] := (rate, height, time); PriceSnapshots[(pair, time)] := … *)
@@ -287,6 +297,6 @@ Definition init_app (c : cfg) (F : funs) (env : list authacc) (md0 : smap id) (h
   match init_epochs h t (g_epochs g), init_tf c F md0 (g_tf g), init_devgas F (g_devgas g), init_evm F env (g_evm g) with
   | Some e, Some tf, Some dg, Some ev =>
       Some {| a_sudo := init_sudo (g_sudo g); a_infl := init_infl (g_infl g); a_epochs := e;
-              a_oracle := init_oracle c h t (g_oracle g); a_tf := tf; a_devgas := dg; a_evm := ev |}
+              a_oracle := init_oracle c h t (json_oracle_gen F (g_oracle g)); a_tf := tf; a_devgas := dg; a_evm := ev |}
   | _, _, _, _ => None
   end.
